@@ -3,6 +3,7 @@ package main
 import (
 	"encoding/json"
 	"go/types"
+	"net/url"
 	"strconv"
 	"strings"
 
@@ -107,6 +108,96 @@ func addMoreIntrinsics(m map[string]intrinsic) {
 		m[p+".UnmarshalWithParams"] = asn1Unmarshal
 		m[p+".Marshal"] = asn1Marshal
 		m[p+".MarshalWithParams"] = asn1Marshal
+	}
+	// net/url: Parse is evaluated by the real library when its argument is concrete (pool variants of the
+	// order / pair checks), and the accessor methods of such a fully concrete URL are executed from source;
+	// on symbolic strings both remain uninterpreted functions of their arguments.
+	autoUF := func(e *Exec, fn *ssa.Function, args []Value) Value {
+		if !e.cfg.AutoUF {
+			e.unsupported("no stub: %s", fn.String())
+		}
+		e.stub("auto-uf:" + fn.String())
+		return e.ufCall(fn.String(), args, fn.Signature.Results())
+	}
+	m["net/url.Parse"] = func(e *Exec, fn *ssa.Function, args []Value) Value {
+		sv, ok := args[0].(*StrV)
+		if !ok || sv.C == nil {
+			return autoUF(e, fn, args)
+		}
+		e.stub("native:url.Parse")
+		u, err := url.Parse(*sv.C)
+		if err != nil {
+			return &TupleV{E: []Value{&PtrV{}, e.mkError(err.Error())}}
+		}
+		pt := fn.Signature.Results().At(0).Type().(*types.Pointer)
+		st := pt.Elem().Underlying().(*types.Struct)
+		out := &StructV{F: make([]Value, st.NumFields())}
+		for i := 0; i < st.NumFields(); i++ {
+			f := st.Field(i)
+			switch f.Name() {
+			case "Scheme":
+				out.F[i] = cstr(u.Scheme)
+			case "Opaque":
+				out.F[i] = cstr(u.Opaque)
+			case "Host":
+				out.F[i] = cstr(u.Host)
+			case "Path":
+				out.F[i] = cstr(u.Path)
+			case "RawPath":
+				out.F[i] = cstr(u.RawPath)
+			case "RawQuery":
+				out.F[i] = cstr(u.RawQuery)
+			case "Fragment":
+				out.F[i] = cstr(u.Fragment)
+			case "RawFragment":
+				out.F[i] = cstr(u.RawFragment)
+			case "OmitHost":
+				out.F[i] = cbool(u.OmitHost)
+			case "ForceQuery":
+				out.F[i] = cbool(u.ForceQuery)
+			case "User":
+				if u.User == nil {
+					out.F[i] = &PtrV{}
+				} else {
+					ut := f.Type().(*types.Pointer).Elem().Underlying().(*types.Struct)
+					us := &StructV{F: make([]Value, ut.NumFields())}
+					pw, set := u.User.Password()
+					for k := 0; k < ut.NumFields(); k++ {
+						switch ut.Field(k).Name() {
+						case "username":
+							us.F[k] = cstr(u.User.Username())
+						case "password":
+							us.F[k] = cstr(pw)
+						case "passwordSet":
+							us.F[k] = cbool(set)
+						default:
+							us.F[k] = e.zero(ut.Field(k).Type())
+						}
+					}
+					out.F[i] = &PtrV{O: e.newObj(us, "url:userinfo")}
+				}
+			default:
+				out.F[i] = e.zero(f.Type())
+			}
+		}
+		return &TupleV{E: []Value{&PtrV{O: e.newObj(out, "url:parsed")}, &IfaceV{}}}
+	}
+	concreteURL := func(e *Exec, v Value) bool {
+		p, ok := v.(*PtrV)
+		if !ok || p.O == nil || p.O.Name != "url:parsed" {
+			return false
+		}
+		return true
+	}
+	for _, meth := range []string{"Hostname", "Port", "IsAbs", "String", "EscapedPath", "EscapedFragment", "RequestURI", "Query"} {
+		m["(*net/url.URL)."+meth] = func(e *Exec, fn *ssa.Function, args []Value) Value {
+			if len(fn.Blocks) > 0 && concreteURL(e, args[0]) {
+				e.srcExtra["net/url"]++
+				defer func() { e.srcExtra["net/url"]-- }()
+				return e.runBody(fn, args)
+			}
+			return autoUF(e, fn, args)
+		}
 	}
 	// (*rsa.PublicKey).Size: executed from its (one-line) source: (N.BitLen()+7)/8
 	m["(*crypto/rsa.PublicKey).Size"] = func(e *Exec, fn *ssa.Function, args []Value) Value {
